@@ -27,3 +27,27 @@ Print Assumptions C04_candidates_exact.
 Theorem C04_error_iff_none : forall bs, least_conns bs = None <-> filter wb_elig bs = [].
 Proof. exact least_conns_none. Qed.
 Print Assumptions C04_error_iff_none.
+
+(* Tie-break stays inside the candidates: whatever leastConnsSmoothBalance returns (directly for a single
+   candidate, through smoothBalance among several) is a minimal eligible backend; only credits change. *)
+Theorem C04_tie_break_within : forall bs p bs',
+  wlc_smooth bs = Some (p, bs') ->
+  (exists c, minimal_in bs c /\ wb_id c = p) /\ map pj_b bs' = map pj_b bs.
+Proof. exact wlc_smooth_some. Qed.
+Print Assumptions C04_tie_break_within.
+Theorem C04_smooth_error_iff_none : forall bs, wlc_smooth bs = None <-> filter wb_elig bs = [].
+Proof. exact wlc_smooth_none. Qed.
+Print Assumptions C04_smooth_error_iff_none.
+
+(* The model satisfies the executable property (every pick in an operation history of Balance(WlcSmooth /
+   WlcSimple), connection-count changes and SetAvail is minimal; -1 iff nothing is eligible) on every
+   well-formed input; kf_C04 = 0 everywhere. *)
+Theorem C04_prop_of_model : forall i conf ops, dec_in i = Some (conf, ops) -> prop_C04 i (run_C04 i) = true.
+Proof. exact prop_of_model_C04. Qed.
+Print Assumptions C04_prop_of_model.
+
+(* Non-vacuity: weights 2,1,4 with 4,2,9 connections: ratios 2,2,2.25 -> candidates are backends 0 and 1. *)
+Example C04_example :
+  let bs := set_conn (set_conn (set_conn (winit [(0,2);(1,1);(2,4)]) 0 4) 1 2) 2 9 in
+  option_map (map wb_id) (least_conns bs) = Some [0; 1].
+Proof. exact eq_refl. Qed.
